@@ -1,10 +1,10 @@
-\* C35 leg A thorough: 3 local blocks, <= 1 crash and <= 1 failed bucket call anywhere (the quick tier has 2 blocks with 2 crashes);
+\* C35 leg A thorough: 3 local blocks, <= 2 crashes and <= 2 failed bucket calls anywhere;
 \* generated cases: 1..2 blocks, pre-state absent/partial/complete, <= 2 crash points
 SPECIFICATION Spec
 CONSTANTS N = 3
-          MaxCrashes = 1
+          MaxCrashes = 2
           Features = {"crash", "fail"}
-          MaxFails = 1
+          MaxFails = 2
           MtLen = 3
           CaseN = 2
           CaseCrashes = 2
